@@ -24,6 +24,19 @@ def load_known():
         return set(json.load(f)["functions"])
 
 
+def load_signatures():
+    if not os.path.exists(KNOWN_PATH):
+        return {}
+    with open(KNOWN_PATH) as f:
+        return json.load(f).get("signatures", {})
+
+
+def signature(raw):
+    """Parameter types and return type, as printed by the compiler."""
+    n = raw.get("arg_count", 0)
+    return [raw["locals"][i]["ty"] for i in range(1, n + 1)] + ["-> " + raw["locals"][0]["ty"]]
+
+
 def _shift(x, lo, bo, po, item_from, item_to):
     """Deep copy of a MIR fragment with locals (+lo), blocks (+bo) and promoted indices (+po) renumbered."""
     if isinstance(x, list):
@@ -121,9 +134,26 @@ def apply(data, known=None):
     for u in unknown:
         cand.setdefault(u.split("::")[-1], []).append(u)
     renames = {}
+    crate_of = lambda x: x.lstrip("<&").split("::")[0]
     for seg, us in cand.items():
         ks = gone.get(seg, [])
-        if len(us) == 1 and len(ks) == 1 and us[0].lstrip("<&").split("::")[0] == ks[0].lstrip("<&").split("::")[0]:
+        if len(us) == 1 and len(ks) == 1 and crate_of(us[0]) == crate_of(ks[0]):
+            renames[us[0]] = ks[0]
+    # ... or was renamed: exactly one unknown function has the signature of exactly one known function that is gone (same crate, at
+    # least two parameters - anything less is too common to mean something).  Rules that name the old function then examine the new
+    # one; they check what it does, so a wrong guess can only produce a report, never hide one.
+    sigs = load_signatures()
+    gone_sig = {}
+    for k in known:
+        if k not in by_id and "{closure" not in k and k not in renames.values() and k in sigs and len(sigs[k]) >= 3:
+            gone_sig.setdefault((crate_of(k), json.dumps(sigs[k])), []).append(k)
+    unk_sig = {}
+    for u in unknown:
+        if u not in renames:
+            unk_sig.setdefault((crate_of(u), json.dumps(signature(by_id[u]))), []).append(u)
+    for key, us in unk_sig.items():
+        ks = gone_sig.get(key, [])
+        if len(us) == 1 and len(ks) == 1:
             renames[us[0]] = ks[0]
     if renames:
         for crate, d in data.items():
@@ -205,7 +235,9 @@ if __name__ == "__main__":
     d, info = extract.extract()
     data = extract.load(d)
     ids = sorted(raw["id"] for c in data.values() for raw in c["fns"])
+    sigs = {raw["id"]: signature(raw) for c in data.values() for raw in c["fns"] if raw.get("kind") != "Closure" and "{closure" not in raw["id"]}
     with open(KNOWN_PATH, "w") as f:
-        json.dump({"_comment": "function ids of the tree the rules were written against; functions not listed here are inlined into their "
-                               "callers before the rules run (rqverif/inline.py)", "tree_hash": info.get("tree_hash"), "functions": ids}, f, indent=0)
+        json.dump({"_comment": "function ids (and signatures) of the tree the rules were written against; functions not listed here are "
+                               "inlined into their callers before the rules run, moved or renamed ones are given their old id back "
+                               "(rqverif/inline.py)", "tree_hash": info.get("tree_hash"), "functions": ids, "signatures": sigs}, f, indent=0)
     print("wrote", KNOWN_PATH, len(ids))
